@@ -422,6 +422,60 @@ def main_obligations(rep, tier):
                        replay={'input': sql, 'dialect': 'mindsdb', 'fires': True, 'observed': f'{type(e).__name__}', 'expected': 'PlanningException'})
 
 
+def shape_obligations(rep):
+    """(i) a filter on a column that is neither the order column nor a partition column is rejected wherever it stands in the AND chain and whatever
+    operator it uses; (ii) the data side written as a sub-select (the "dbt form"): the statement's LIMIT is what cuts the result after the join"""
+    from mindsdb_sql import parse_sql
+    from mindsdb_sql.planner.query_planner import QueryPlanner
+    from mindsdb_sql.planner.steps import LimitOffsetStep, JoinStep
+    from mindsdb_sql.exceptions import PlanningException
+    fn = 'mindsdb_sql.planner.ts_utils:validate_ts_where_condition'
+    _, kw = grid_case('gt', 0, ['g1'], False)
+    foreign = {'eq': 't.other = 1', 'lt': 't.other < 1', 'between': 't.other BETWEEN 1 AND 5', 'in': 't.other IN (1, 2)', 'like': "t.other LIKE 'a%'", 'is-null': 't.other IS NULL',
+               'not': 'NOT t.other = 1', 'fn': 'abs(t.other) = 1'}
+    for name, cond in foreign.items():
+        for pos, where in (('first', f'{cond} AND t.t > 1000'), ('last', f't.t > 1000 AND {cond}'), ('middle', f't.g1 = 7 AND {cond} AND t.t > 1000'), ('after-partition', f't.t > 1000 AND t.g1 = 7 AND {cond}')):
+            sql = f'SELECT * FROM int1.tbl1 AS t JOIN mindsdb.tp AS m WHERE {where}'
+            oid = f'C15.reject.other-column.{name}.{pos}'
+            try:
+                QueryPlanner(parse_sql(sql), **kw).from_query()
+                rep.failed(oid, 'smt:z3', 'accepted', function=fn, clause='a filter on another column raises PlanningException',
+                           replay={'input': sql, 'dialect': 'mindsdb', 'fires': True, 'observed': 'planned', 'expected': 'PlanningException'})
+            except PlanningException:
+                rep.proved(oid, 'smt:z3', 'PlanningException', function=fn, clause='a filter on another column raises PlanningException')
+            except Exception as e:
+                rep.failed(oid, 'smt:z3', f'raises {type(e).__name__}: {e}'[:150], function=fn, clause='a filter on another column raises PlanningException',
+                           replay={'input': sql, 'dialect': 'mindsdb', 'fires': True, 'observed': type(e).__name__, 'expected': 'PlanningException'})
+    fn2 = 'mindsdb_sql.planner.plan_join_ts:PlanJoinTSPredictorQuery.adapt_dbt_query'
+    for inner, outer in ((None, 5), (50, 5), (5, 5), (3, 5), (50, None), (None, None)):
+        sql = (f"SELECT * FROM (SELECT * FROM int1.tbl1 AS ta WHERE ta.g1 = 7{f' LIMIT {inner}' if inner else ''}) AS t1 JOIN mindsdb.tp AS tb WHERE t1.t > LATEST"
+               + (f' LIMIT {outer}' if outer else ''))
+        oid = f'C15.dbt.limit.inner-{inner}.outer-{outer}'
+        clause = 'sub-select form: the statement LIMIT n is applied by one LimitOffsetStep after the join, cutting at n (at the smaller value when the sub-select has its own, smaller LIMIT)'
+        try:
+            plan = QueryPlanner(parse_sql(sql), **kw).from_query()
+        except Exception as e:
+            rep.failed(oid, 'smt:z3', f'raises {type(e).__name__}: {e}'[:150], function=fn2, clause=clause, replay={'input': sql, 'dialect': 'mindsdb', 'fires': True, 'observed': type(e).__name__, 'expected': 'a plan'})
+            continue
+        lo = [i for i, s_ in enumerate(plan.steps) if isinstance(s_, LimitOffsetStep)]
+        js = [i for i, s_ in enumerate(plan.steps) if isinstance(s_, JoinStep)]
+        problem = None
+        if outer is None:
+            if any(getattr(plan.steps[i], 'limit', None) is not None and inner is None for i in lo):
+                problem = 'a LIMIT is applied although the statement has none'
+        else:
+            want = outer if inner is None else min(inner, outer)
+            got = [getattr(plan.steps[i].limit, 'value', plan.steps[i].limit) for i in lo]
+            if len(lo) != 1 or not js or lo[0] < js[-1]:
+                problem = f'the requested LIMIT is not applied as one LimitOffsetStep after the join (limit steps at {lo}, joins at {js})'
+            elif got[0] != want:
+                problem = f'statement LIMIT {outer}' + (f' (sub-select LIMIT {inner})' if inner else '') + f': the result after the join is cut at {got[0]} rows, expected {want}'
+        if problem is None:
+            rep.proved(oid, 'smt:z3', 'LimitOffsetStep after the join with the expected value', function=fn2, clause=clause)
+        else:
+            rep.failed(oid, 'smt:z3', problem, function=fn2, clause=clause, replay={'input': sql, 'dialect': 'mindsdb', 'fires': True, 'observed': problem[:200], 'expected': 'LIMIT after the join'})
+
+
 def check(rep, tier):
     from vlib import statecensus
     statecensus.obligations(rep, 'C15', 'planner')
@@ -431,5 +485,6 @@ def check(rep, tier):
     rep.trust('pysym executor', 'z3 linear integer arithmetic')
     helper_obligations(rep)
     main_obligations(rep, tier)
+    shape_obligations(rep)
     rep.notes.append('Fetch predicates proved equivalent to the specification for every grid case over a symbolic row.')
     rep.bounded_rule = 'grid of 9 operators x 0..2 group columns x 0..n partition filters x model side (exhaustive over the grid; rows/bounds symbolic)'
